@@ -132,6 +132,31 @@ func (x *Exec) isTimeAfter(e ast.Expr) bool {
 	return f != nil && f.FullName() == "time.After"
 }
 
+// isTimerChan: a channel of time.Time (what time.After returns)
+func isTimerChan(t types.Type) bool {
+	if t == nil {
+		return false
+	}
+	c, ok := types.Unalias(t).Underlying().(*types.Chan)
+	if !ok {
+		return false
+	}
+	n := namedOf(c.Elem())
+	return n != nil && qualName(n) == "time.Time"
+}
+
+// timerTick: receiving from a timer counts as one full interval waited (sleeps += 1) only if
+// the timer was armed after this goroutine's last send: a timer armed before a batch of
+// sends may already have expired when the batch is done, so nothing is known to elapse.
+func (x *Exec) timerTick(st *State, ch Term) {
+	one := tInt(1)
+	if ch.S != "" {
+		armed := tSelect(x.heapMap(st, "TimerArmed", "Int"), ch, "Int")
+		one = tIte(tEq(armed, x.ghostInt(st, "actions")), tInt(1), tInt(0))
+	}
+	st.ghosts["sleeps"] = tApp("Int", "+", x.ghostInt(st, "sleeps"), one)
+}
+
 func (x *Exec) ghostBool(st *State, name string) Term {
 	if t, ok := st.ghosts[name]; ok {
 		return t
@@ -152,6 +177,13 @@ func (x *Exec) ghostInt(st *State, name string) Term {
 
 // chanRecv: demonic receive. k gets the received value and the ok flag.
 func (x *Exec) chanRecv(st *State, fr *Frame, ch Term, n ast.Node, k func(*State, Term, Term)) {
+	if isTimerChan(ch.Ty) {
+		s2 := st.clone()
+		x.timerTick(s2, ch)
+		v := x.d.fresh("now", x.sortOf(types.Unalias(ch.Ty).Underlying().(*types.Chan).Elem()))
+		k(s2, v, tTrue)
+		return
+	}
 	es := x.chanElemSort(ch.Ty)
 	if es == "" {
 		x.unsupported(n, "receive from a value that is not a channel")
@@ -188,6 +220,7 @@ func (x *Exec) chanSend(st *State, fr *Frame, ch Term, v Term, n ast.Node, guard
 		x.oblige(st, "progress", "bare-send", tApp("Bool", ">", x.chInt(st, "slots", ch), tInt(0)), n, "a send outside select needs a guaranteed free slot")
 		x.chSetInt(st, "slots", ch, tApp("Int", "-", x.chInt(st, "slots", ch), tInt(1)))
 	}
+	st.ghosts["actions"] = tApp("Int", "+", x.ghostInt(st, "actions"), tInt(1))
 	name, m, tr := x.chTrace(st, "sent", ch)
 	cur := tSelect(m, ch, tr)
 	es := x.d.sorts[tr].Elem
@@ -251,7 +284,7 @@ func (x *Exec) selectStmt(st *State, fr *Frame, s *ast.SelectStmt, k func(*State
 			case "cancel":
 				b.ghosts["sawCancel"] = tTrue
 			case "timer":
-				b.ghosts["sleeps"] = tApp("Int", "+", x.ghostInt(cur, "sleeps"), tInt(1))
+				x.timerTick(b, a.ch)
 			case "send":
 				b.assume(tNot(tEq(a.ch, nullRef))) // a nil channel is never ready
 				x.chanSend(b, fr, a.ch, a.val, a.cc, true)
@@ -316,6 +349,12 @@ func (x *Exec) selectStmt(st *State, fr *Frame, s *ast.SelectStmt, k func(*State
 			case x.isTimeAfter(rx):
 				a.kind = "timer"
 				next(cur, a)
+			case isTimerChan(x.info.TypeOf(rx)):
+				x.exprK(cur, fr, rx, func(s2 *State, chT Term) {
+					b := a
+					b.kind, b.ch = "timer", chT
+					next(s2, b)
+				})
 			default:
 				a.kind = "recv"
 				x.exprK(cur, fr, rx, func(s2 *State, chT Term) {
